@@ -3,7 +3,8 @@
 Modelled and compared (Lean: `HappyModel/C09/{Resource,Sync,Pool}.lean`, Spec predicates in
 `Spec.lean`, `SyncSpec.lean`, `Pool.lean`): `Resource`, `Mutex`, `Semaphore`, `RWLock`, `Barrier`,
 `Condition` (+ its mutex), `ConnectionPool.acquire/release`, the three non-blocking concurrency limiters
-of `server/concurrency.py`.
+of `server/concurrency.py`; `Bulkhead`, `ThreadPool`, `PreemptibleResource` (module `c09_extra.py`,
+Lean `HappyModel/C09/{Bulkhead,ThreadPool,Preempt,ExtraDriver}.lean`).
 
 Correspondence: the real objects from /repo are driven (a) directly by generated operation
 streams, including malformed ones (`*-direct` families), and (b) by generated worker processes
@@ -12,6 +13,10 @@ segment ran at which delivery, with the clock value — is taken from the implem
 to the Lean model, which recomputes every result, wake list and public counter, and predicts that
 each woken process resumes exactly once, at the clock value of its wake-up, without consuming
 deliveries while blocked.  The Lean Spec predicates judge the implementation's own transcript.
+
+`Resource.set_capacity` (and the `ReduceCapacity` fault that calls it) is an operation of the Resource model:
+the capacity may drop below the held amount, `available` goes negative, nothing is granted until the
+excess has been released, waiters are woken FIFO on an increase.
 
 The models describe the tree with `fixes/C09-sync-spin-wait.diff` and
 `fixes/C09-pool-reserve-slot.diff` applied; on the unchanged tree the check reports
@@ -30,6 +35,7 @@ import time
 from pathlib import Path
 
 from hv import core
+from hv.props import c09_extra
 
 # Import the implementation once in the checking process (hv.core has put HV_REPO first on sys.path):
 # the forked implementation workers then inherit the loaded modules instead of importing the
@@ -50,7 +56,7 @@ TICK = 125_000_000  # ns; 1/8 s, so `yield ticks/8` is exact in float and in int
 SPIN_LIMIT = 300    # watchdog: resumptions of one blocked process before it gives up
 END_NS = 10**15
 CALL_OPS = {"acq", "try", "acqr", "acqw", "tryr", "tryw", "wait"}
-RESULTS = {"granted", "queued", "refused", "released", "noop", "passed", "ok", "err:ValueError", "err:RuntimeError"}
+RESULTS = {"granted", "queued", "refused", "released", "noop", "resized", "passed", "ok", "err:ValueError", "err:RuntimeError"}
 
 # Engine-family transcripts travel from the forked implementation workers to the parent (which
 # builds the model block from the schedule they contain) through a per-run scratch directory:
@@ -88,24 +94,36 @@ class C09(core.Property):
     quick_cases = 4000
     thorough_cases = 120000
     case_timeout_s = 20
-    rule = ("families (round robin): res-direct = ≤60 acquire/try_acquire/release calls on one Resource, capacity 1–8, amounts incl. 0, "
-            "negative, capacity+1, double/unknown releases; res-engine = 2–16 worker processes in a real Simulation (arrival 0–4 ticks of "
-            "1/8 s, many ties, hold 0–3 ticks, optional second nested acquire, double release); sync-direct / sync-engine = the same for "
+    rule = ("families (round robin): res-direct = ≤60 acquire/try_acquire/release/set_capacity calls on one Resource, capacity 1–8, amounts incl. 0, "
+            "negative, capacity+1, double/unknown releases, set_capacity below / equal to / above the held amount and with 0 or negative values "
+            "(in 60% of the cases; the others keep a fixed capacity); res-engine = 2–16 worker processes in a real Simulation (arrival 0–4 ticks of "
+            "1/8 s, many ties, hold 0–3 ticks, optional second nested acquire, double release; in 25% a controller entity calling set_capacity at "
+            "1–3 ticks, in 15% the real ReduceCapacity fault with 1–2 possibly overlapping windows and integral effective capacities); sync-direct / sync-engine = the same for "
             "Mutex, Semaphore(1–4), RWLock(max_readers None/1/2/3), Barrier(1–4 parties) incl. malformed releases, reset/abort; "
             "cond-engine = consumers/producers on Condition+Mutex; pool-engine = 2–10 workers on ConnectionPool(max 1–3, set-up latency "
             "0–1 s, timeout 0.5–2 s) incl. arrivals during set-up, timeouts, double release, second cycle; conc-direct = ≤50 acquire/release/"
-            "set_limit calls on Fixed/Dynamic/WeightedConcurrency. A case is non-trivial when at "
+            "set_limit calls on Fixed/Dynamic/WeightedConcurrency; (one case in six, hv/props/c09_extra.py) bulkhead-engine = 2–8 (thorough 12) requests, "
+            "max_concurrent 1–3, wait queue 0–3, wait time None/1–4 ticks, hold 0–3 ticks or immediate return; tpool-engine = 2–12 tasks, 1–3 workers, queue capacity "
+            "None/0–3, processing 0–3 ticks; preempt-direct = 3–40 acquire/release calls, capacity 1–4, amounts 1–cap plus malformed, priorities 0–3 with ties, preempt "
+            "flag, double release, release of a preempted / not-yet-given / unknown grant. A case is non-trivial when at "
             "least one caller was queued and at least one was woken/handed over (pool: at least one caller waited); distinct = distinct case content")
     trusted_base = [
+        "hv/props/c09_extra.py adapters: Bulkhead and ThreadPool are subclassed only to log public counters around the public handle_event / handle_queued_event; "
+        "the handle_event of ThreadPool.queue and ThreadPool.driver (public properties) is wrapped per instance; which request a _bh_response / _bh_timeout delivery "
+        "belongs to is read from the request_id in the events the public handle_event returned; whether a timeout removed a waiter is read from queue_depth; "
+        "preempt-direct: woken waiters are read from the public SimFuture.is_resolved, eviction order from the on_preempt callbacks",
         "hv/props/c09.py adapters (drive the real objects, canonical transcript)",
         "engine families: the order and clock values of the calls are taken from the implementation run (schedule replay); "
         "the engine's own ordering rule is C01/C02's subject",
         "Resource direct family: which futures are resolved is read from the public SimFuture.is_resolved",
+        "Resource engine family: set_capacity calls (controller entity, ReduceCapacity fault) are logged by wrapping the public method on the harness's Resource object",
         "sync/pool engine families: which callers a release woke is inferred from the public waiters counter (the first k of the harness's "
         "arrival-ordered pending list) and confirmed by which process is then seen resuming; sync direct family: by polling the blocked generators with next()",
         "granted-vs-queued of a blocking sync call is read from the public waiters counter right after the first segment",
     ]
     assumptions = [
+        "PreemptibleResource grants at once when the amount fits, even past queued higher-priority waiters, like Resource; the Spec accepts this",
+        "ThreadPool is judged at the last observation of each instant for loss and work conservation; priorities are integers 0–3 and times lie on the 1/8 s grid",
         "amounts, capacities and counts are integers in the models; a quarter of the Resource direct cases run the code on floats k/4 "
         "(exact dyadic doubles) and compare in units of 1/4; arbitrary floats are not covered",
         "ConnectionPool waits by polling every min(0.1 s, timeout/10): a queued acquirer notices a hand-off at its next poll, not at the "
@@ -114,7 +132,9 @@ class C09(core.Property):
         "orders *blocked* acquirers only, so the Spec accepts this",
     ]
     hypotheses = ["grant_at_most_once: call ids in the operation list are pairwise distinct (they name distinct calls)",
-                  "0 < capacity (the constructors reject anything else)"]
+                  "held_le_limit and the second half of served_if_released: FixedCap ops (no set_capacity in the interleaving); with set_capacity the bound is "
+                  "restated as no_grant_while_overcommitted + overcommit_only_by_set_capacity, conservation and release_never_exceeds hold unconditionally",
+                  "0 < capacity, 0 < max_concurrent (the constructors reject anything else)"]
     partial_theorems = {
         "wait_is_silent (DESIGN §8)": "not a Lean theorem: 'a blocked caller consumes no deliveries and resumes at the clock value of its "
                                       "wake-up' is an engine-layer clause; it is judged on every engine transcript (*/wait/not-silent, "
@@ -122,13 +142,21 @@ class C09(core.Property):
         "semaphore / rwlock / pool": "state invariants over all operation lists (bounds, exclusion, conservation, head-not-grantable) are proved; the "
                                      "trace-level statement 'the executable judge accepts the model trace' is proved for Resource and Mutex only",
         "barrier / condition": "modelled, compared and judged; no theorem",
-        "bulkhead, thread_pool, preemptible_resource": "not modelled",
+        "bulkhead / thread pool / preemptible resource": "state invariants over all delivery / call lists are proved (HappyProofs/C09/ExtraProps.lean); the trace-level "
+                                                         "statement 'the executable judge accepts the model trace' is not",
+        "preemptible resource": "theorems are for wakeAfterPreempt = true (the tree with fixes/C09-extra-preempt-wake-after-preempt.diff); the current code's violation is "
+                                "preempt_current_leaves_head_grantable; until the patch is applied the generator does not emit the trigger (c09_extra.PREEMPT_RESTRICT)",
+        "not modelled": "ThreadPool with a LIFO or priority queue_policy, user completion hooks on requests sent through a Bulkhead, a Bulkhead in front of a "
+                        "QueuedResource target (fixes/C09-extra-bulkhead-queued-target.md: the permit is returned when the target enqueues, not when it finishes), "
+                        "PreemptibleResource inside an engine",
         "pool idle-timeout closing, warm-up, close_all": "not modelled (the harness drops the idle-timeout events)",
     }
     variants = ["repaired"]
 
     # ------------------------------------------------------------------ generation
     def generate(self, rng: random.Random, i: int, tier: str) -> dict:
+        if i % 6 == 5:
+            return c09_extra.generate(rng, i // 6, tier)
         if i % 11 == 10:
             return self.gen_conc_direct(rng, tier)
         k = i % 5
@@ -158,14 +186,42 @@ class C09(core.Property):
         return cap + rng.randint(2, 50)
 
     def gen_res_direct(self, rng, tier):
-        cap = rng.choice([1, 1, 2, 2, 3, 4, 5, 8])
+        cap = cap0 = rng.choice([1, 1, 2, 2, 3, 4, 5, 8])
         n = rng.choice([4, 8, 16, 30, 60])
+        # set_capacity calls: none (fixed capacity, the common use), a few, or many
+        p_cap = rng.choice([0.0, 0.0, 0.05, 0.12, 0.25])
         ops, nid = [], 0
         # generation bias only: a rough picture of which grants are live / queued
         avail, live, queue, dead = cap, [], [], []
+
+        def wake():
+            nonlocal avail
+            while queue and queue[0][1] <= avail:
+                w = queue.pop(0)
+                avail -= w[1]
+                live.append(w)
+
         for _ in range(n):
             r = rng.random()
-            if r < 0.45 or not (live or queue or dead):
+            if r < p_cap:
+                held = sum(g[1] for g in live)
+                q = rng.random()
+                if q < 0.45 and held > 0:
+                    new = rng.choice([max(1, held - 1), max(1, held - 2), max(1, held // 2), 1])     # below what is held
+                elif q < 0.6:
+                    new = max(1, held)                                                              # exactly what is held
+                elif q < 0.9:
+                    new = rng.choice([cap + 1, cap + 2, held + 1, held + (queue[0][1] if queue else 1), 8, 9])   # room again
+                else:
+                    new = rng.choice([0, -1, -3])                                                   # rejected
+                ops.append(["cap", new])
+                if new > 0:
+                    avail += new - cap
+                    grew, cap = new > cap, new
+                    if grew:
+                        wake()
+                continue
+            if r < p_cap + 0.45 or not (live or queue or dead):
                 a = self._amount(rng, cap)
                 kind = "acq" if rng.random() < 0.8 else "try"
                 ops.append([kind, nid, a])
@@ -183,17 +239,14 @@ class C09(core.Property):
                     ops.append(["rel", g[0]])
                     dead.append(g[0])
                     avail += g[1]
-                    while queue and queue[0][1] <= avail:
-                        w = queue.pop(0)
-                        avail -= w[1]
-                        live.append(w)
+                    wake()
                 elif dead and q < 0.9:
                     ops.append(["rel", rng.choice(dead)])       # double release
                 elif queue and q < 0.96:
                     ops.append(["rel", rng.choice(queue)[0]])   # release of a grant not yet given
                 else:
                     ops.append(["rel", nid + rng.randint(0, 3)])  # unknown id
-        case = {"family": "res-direct", "cap": cap, "ops": ops}
+        case = {"family": "res-direct", "cap": cap0, "ops": ops}
         if rng.random() < 0.25:
             case["scale"] = 4      # float run: capacity and amounts are k/4 (exact dyadic doubles), printed as k
         return case
@@ -213,7 +266,28 @@ class C09(core.Property):
             if rng.random() < 0.1:
                 w["twice"] = True   # releases its grant twice
             ws.append(w)
-        return {"family": "res-engine", "cap": cap, "workers": ws}
+        case = {"family": "res-engine", "cap": cap, "workers": ws}
+        r = rng.random()
+        if r < 0.25:
+            # a controller entity calls set_capacity at given ticks (before or after the workers of that tick)
+            case["caps"] = [[rng.randint(0, spread + 4), rng.choice([1, 1, 2, max(1, cap - 1), cap, cap + 1, cap + 2])]
+                            for _ in range(rng.choice([1, 2, 3]))]
+            case["caps_first"] = rng.random() < 0.5
+        elif r < 0.4:
+            # the real ReduceCapacity fault (overlapping windows multiply); capacities stay integral
+            cap = case["cap"] = rng.choice([2, 4, 4, 8])
+            for w in ws:
+                w["amt"] = max(1, min(w["amt"], cap)) if w["amt"] > 0 else w["amt"]
+                if "amt2" in w:
+                    w["amt2"] = min(w["amt2"], cap)
+            nwin = rng.choice([1, 1, 2]) if cap >= 4 else 1
+            fs = []
+            for _ in range(nwin):
+                a = rng.randint(0, spread + 2)
+                f = 2 if (nwin == 2 or cap == 2) else rng.choice([1, 2, 2, 3] if cap == 4 else [2, 2, 4, 6] if cap == 8 else [2])
+                fs.append([f, a, a + rng.randint(1, 6)])
+            case["faults"] = fs        # [factor in quarters, start tick, end tick]
+        return case
 
 
     # ---- sync primitives
@@ -394,6 +468,8 @@ class C09(core.Property):
             out = self.impl_sync_direct(case)
         elif fam == "sync-engine":
             out = self.impl_sync_engine(case)
+        elif fam in c09_extra.FAMILIES:
+            out = c09_extra.run_impl(case)
         else:
             raise ValueError(f"unknown family {fam}")
         self._store(case, out)
@@ -440,11 +516,18 @@ class C09(core.Property):
             for i in woke:
                 pending.remove(i)
                 grants[i] = futs[i].value
-            return f"{res} woke={ids(woke)} a={un(r.available)} w={r.waiters}"
+            return f"{res} woke={ids(woke)} a={un(r.available)} w={r.waiters} c={un(r.capacity)}"
 
         for op in case["ops"]:
             kind, i = op[0], op[1]
-            if kind == "acq":
+            if kind == "cap":
+                try:
+                    r.set_capacity(fl(i))
+                    res = "resized"
+                except ValueError:
+                    res = "err:ValueError"
+                out.append(f"cap 0 {i} " + tail(res))
+            elif kind == "acq":
                 try:
                     f = r.acquire(fl(op[2]))
                 except ValueError:
@@ -493,12 +576,36 @@ class C09(core.Property):
 
         r = Resource("r", case["cap"])
         out, pending, futs, got = [], [], {}, set()
+        iv = lambda x: int(x) if float(x).is_integer() else x     # ReduceCapacity hands over float capacities
 
         def tail(res):
             woke = [i for i in pending if futs[i].is_resolved]
             for i in woke:
                 pending.remove(i)
-            return f"{res} woke={ids(woke)} a={r.available} w={r.waiters}"
+            return f"{res} woke={ids(woke)} a={iv(r.available)} w={r.waiters} c={iv(r.capacity)}"
+
+        # every set_capacity call — by the controller entity below or by the ReduceCapacity fault — is logged
+        # by wrapping the public method on this one object
+        real_set_capacity = r.set_capacity
+
+        def logged_set_capacity(capacity):
+            try:
+                real_set_capacity(capacity)
+                res = "resized"
+            except ValueError:
+                res = "err:ValueError"
+                raise
+            finally:
+                out.append(f"cap {r.now.nanoseconds} {iv(capacity)} " + tail(res))
+
+        r.set_capacity = logged_set_capacity
+
+        class Controller(Entity):
+            def handle_event(self, event):
+                try:
+                    r.set_capacity(event.context["metadata"]["cap"])
+                except ValueError:
+                    pass
 
         class Worker(Entity):
             def __init__(self, k, w):
@@ -565,12 +672,32 @@ class C09(core.Property):
                     self.release(c2, g2)
 
         workers = [Worker(k, w) for k, w in enumerate(case["workers"])]
-        sim = Simulation(end_time=Instant(END_NS), entities=[r, *workers])
+        ctl = Controller("ctl")
+        faults = None
+        if case.get("faults"):
+            from happysimulator.faults.resource_faults import ReduceCapacity
+            from happysimulator.faults.schedule import FaultSchedule
+
+            faults = FaultSchedule()
+            for f, a, b in case["faults"]:
+                faults.add(ReduceCapacity("r", f / 4, a * TICK / 1e9, b * TICK / 1e9))
+        sim = Simulation(end_time=Instant(END_NS), entities=[r, ctl, *workers], fault_schedule=faults)
+
+        def caps():
+            for t, c in case.get("caps", []):
+                ev = Event(time=Instant(t * TICK), event_type="cap", target=ctl)
+                ev.add_context("cap", c)
+                sim.schedule(ev)
+
+        if case.get("caps_first"):
+            caps()
         for wk in workers:
             sim.schedule(Event(time=Instant(wk.w["at"] * TICK), event_type="go", target=wk))
+        if not case.get("caps_first"):
+            caps()
         sim.run()
         parked = [i for i in futs if futs[i].is_resolved and i not in got]
-        out.append(f"fin 0 blocked={ids(pending)} parked={ids(parked)} a={r.available} w={r.waiters}")
+        out.append(f"fin 0 blocked={ids(pending)} parked={ids(parked)} a={iv(r.available)} w={r.waiters} c={iv(r.capacity)}")
         return out
 
 
@@ -1055,10 +1182,12 @@ class C09(core.Property):
 
     def model_block(self, case, variant):
         fam = case["family"]
+        if fam in c09_extra.FAMILIES:
+            return c09_extra.model_block(case, variant, self._impl_out(case) if fam.endswith("-engine") else None)
         if fam == "res-direct":
             body = []
             for op in case["ops"]:
-                body.append(f"{op[0]} 0 {op[1]} {op[2]}" if op[0] != "rel" else f"rel 0 {op[1]}")
+                body.append(f"{op[0]} 0 {op[1]} {op[2]}" if op[0] in ("acq", "try") else f"{op[0]} 0 {op[1]}")
             return (f"res {case['cap']}", body)
         if fam == "res-engine":
             impl = self._impl_out(case)
@@ -1097,6 +1226,8 @@ class C09(core.Property):
         if impl_out and impl_out[0].startswith("IMPL-"):
             return None
         fam = case["family"]
+        if fam in c09_extra.FAMILIES:
+            return c09_extra.judge_block(case, impl_out)
         if fam == "res-direct":
             return (f"judge-res {case['cap']} direct", list(impl_out))
         if fam == "res-engine":
@@ -1116,6 +1247,8 @@ class C09(core.Property):
         return None
 
     def nontrivial_key(self, case, impl_out):
+        if case["family"] in c09_extra.FAMILIES:
+            return c09_extra.nontrivial_key(case, impl_out)
         if any(" queued " in l for l in impl_out) and any("woke=" in l and "woke=-" not in l for l in impl_out):
             return json.dumps(case, sort_keys=True)
         if any("res=waiting" in l for l in impl_out):
@@ -1125,6 +1258,9 @@ class C09(core.Property):
         return None
 
     def shrink(self, case):
+        if case["family"] in c09_extra.FAMILIES:
+            yield from c09_extra.shrink(case)
+            return
         key = "ops" if "ops" in case else "workers"
         xs = case[key]
         n = len(xs)
@@ -1138,6 +1274,8 @@ class C09(core.Property):
             step //= 2
 
     def mutate(self, case, rng):
+        if case["family"] in c09_extra.FAMILIES:
+            return c09_extra.mutate(case, rng)
         key = "ops" if "ops" in case else "workers"
         xs = [json.loads(json.dumps(x)) for x in case[key]]
         if not xs:
@@ -1170,6 +1308,8 @@ class C09(core.Property):
 THEOREMS: list[str] = [
     "HappyModel.C09.resource_trace_satisfies_spec",
     "HappyModel.C09.held_le_limit",
+    "HappyModel.C09.no_grant_while_overcommitted",
+    "HappyModel.C09.overcommit_only_by_set_capacity",
     "HappyModel.C09.held_plus_available_eq_capacity",
     "HappyModel.C09.release_never_exceeds",
     "HappyModel.C09.grant_fifo",
@@ -1191,5 +1331,5 @@ THEOREMS: list[str] = [
     "HappyModel.C09.limiter_active_le_limit",
     "HappyModel.C09.limiter_grant_respects_limit",
 ]
-C09.theorems = THEOREMS
+C09.theorems = THEOREMS + c09_extra.THEOREMS
 PROPERTY = C09()
